@@ -158,6 +158,12 @@ def view_of_reader(f, kind='uamiv'):
     def flags(k):
         a = np.asarray(f.variables[k][:, 0, :])
         return lib.show_list(['%d:%d' % (int(x), int(y)) for x, y in a])
+    for s in names + ['TFLAG']:
+        shp = tuple(np.shape(f.variables[s]))
+        want = (nt, nz, ny, nx) if s != 'TFLAG' else (nt, len(names), 2)
+        if shp != want:
+            return dict(inconsistent='variable %s has shape %s but the dimensions say %s' % (s, shp, want),
+                        nspec=len(names), nx=nx, ny=ny, nz=nz, nt=nt)
     dat = []
     for t in range(nt):
         ws = []
@@ -177,6 +183,8 @@ def view_of_reader(f, kind='uamiv'):
 def diff_view(model_out, view):
     """compare Camx.showView text with view_of_reader()"""
     st, kv = lib.parse_kv(model_out)
+    if 'inconsistent' in view:
+        return 'impl presents an inconsistent file: ' + view['inconsistent']
     for k in ('nspec', 'nx', 'ny', 'nz', 'nt'):
         if int(kv[k]) != view[k]:
             return '%s model=%s impl=%s' % (k, kv[k], view[k])
